@@ -9,8 +9,8 @@ func c15Mgr() *YAMLAccountManager {
 	vfs.put("/cfg/Users/bob.yaml", []byte("bob-doc"))
 	vfs.put("/cfg/Users/amy.yaml", []byte("amy-doc"))
 	return &YAMLAccountManager{accountDir: "/cfg/Users", accounts: map[string]hotline.Account{
-		"bob": {Login: "bob", Name: "Bob", Password: "H:pw"},
-		"amy": {Login: "amy", Name: "Amy", Password: "H:"},
+		"bob": {Login: "bob", Name: "Bob", Password: "H:zzpw"},
+		"amy": {Login: "amy", Name: "Amy", Password: "H:zz"},
 	}}
 }
 
@@ -34,11 +34,11 @@ func c15Consistent(am *YAMLAccountManager, want []string) {
 
 func VH_C15_Create_sym() {
 	am := c15Mgr()
-	err := am.Create(hotline.Account{Login: "eve", Name: "Eve", Password: "H:x"})
+	err := am.Create(hotline.Account{Login: "eve", Name: "Eve", Password: "H:zzx"})
 	vAssert("create_ok", err == nil)
 	c15Consistent(am, []string{"bob", "amy", "eve"})
 	// creating an existing login fails and changes nothing
-	err = am.Create(hotline.Account{Login: "bob", Name: "Mallory", Password: "H:y"})
+	err = am.Create(hotline.Account{Login: "bob", Name: "Mallory", Password: "H:zzy"})
 	vAssert("duplicate_refused", err != nil)
 	c15Consistent(am, []string{"bob", "amy", "eve"})
 	vAssert("duplicate_left_account_alone", am.Get("bob").Name == "Bob")
@@ -48,22 +48,22 @@ func VH_C15_Create_sym() {
 
 func VH_C15_UpdateSameLogin_sym() {
 	am := c15Mgr()
-	err := am.Update(hotline.Account{Login: "bob", Name: "Robert", Password: "H:new"}, "bob")
+	err := am.Update(hotline.Account{Login: "bob", Name: "Robert", Password: "H:zznew"}, "bob")
 	vAssert("update_ok", err == nil)
 	c15Consistent(am, []string{"bob", "amy"})
 	a := am.Get("bob")
-	vAssert("fields_updated", a.Name == "Robert" && a.Password == "H:new")
+	vAssert("fields_updated", a.Name == "Robert" && vIsHashOf(a.Password, "new"))
 	vAssert("other_untouched", am.Get("amy").Name == "Amy")
 }
 
 func VH_C15_Rename_sym() {
 	am := c15Mgr()
-	err := am.Update(hotline.Account{Login: "bob", Name: "Bob", Password: "H:pw"}, "rob")
+	err := am.Update(hotline.Account{Login: "bob", Name: "Bob", Password: "H:zzpw"}, "rob")
 	vAssert("rename_ok", err == nil)
 	vAssert("renamed_away_login_gone_from_memory", am.Get("bob") == nil)
 	vAssert("renamed_away_file_gone", vfs.find("/cfg/Users/bob.yaml") < 0)
 	c15Consistent(am, []string{"rob", "amy"})
-	vAssert("renamed_keeps_fields", am.Get("rob").Name == "Bob" && am.Get("rob").Password == "H:pw")
+	vAssert("renamed_keeps_fields", am.Get("rob").Name == "Bob" && vIsHashOf(am.Get("rob").Password, "pw"))
 	// the file under the new name records the new login (so a restart loads it under the new login)
 	i := vfs.find("/cfg/Users/rob.yaml")
 	vAssert("renamed_file_exists", i >= 0)
@@ -87,7 +87,7 @@ func VH_C15_Delete_sym() {
 func c15SetUser(pwField []byte, hasPw bool) (*vStubAM, []hotline.Transaction) {
 	srv, cc := vNewServer()
 	cc.Account.Access = hotline.AccessBitmap{0xff, 0xff, 0xff, 0xff, 0xff, 0xff, 0xff, 0xff}
-	am := &vStubAM{getResult: &hotline.Account{Login: "bob", Name: "Bob", Password: "H:old"}}
+	am := &vStubAM{getResult: &hotline.Account{Login: "bob", Name: "Bob", Password: "H:zzold"}}
 	srv.AccountManager = am
 	fields := []hotline.Field{
 		hotline.NewField(hotline.FieldUserLogin, []byte{0x9d, 0x90, 0x9d}), // obfuscated "bob"
@@ -122,11 +122,11 @@ func VH_C15_SetUserPasswordRules() {
 	got := am.updated[0].Password
 	switch mode {
 	case 0:
-		vAssert("absent_password_clears", got == "H:")
+		vAssert("absent_password_clears", vIsHashOf(got, ""))
 	case 1:
-		vAssert("marker_leaves_password", got == "H:old")
+		vAssert("marker_leaves_password", vIsHashOf(got, "old"))
 	default:
-		vAssert("new_password_hashed", got == "H:"+string(pw))
+		vAssert("new_password_hashed", vIsHashOf(got, string(pw)))
 		vAssert("password_not_stored_plain", got != string(pw))
 	}
 	vAssert("name_updated", am.updated[0].Name == "Bobby" && am.updatedNew[0] == "bob")
@@ -149,7 +149,7 @@ func VH_C15_NewUserThenAuthenticate() {
 	vAssert("created", len(am.created) == 1 && !vIsErrReply(res))
 	acc := am.created[0]
 	vAssert("login_decoded", acc.Login == "eve")
-	vAssert("stored_hash_only", acc.Password == "H:"+string(pw))
+	vAssert("stored_hash_only", vIsHashOf(acc.Password, string(pw)))
 	am.getResult = &acc
 	vAssert("can_log_in_with_password", cc.Authenticate("eve", pw))
 	other := vBytesEach("other", 3)
@@ -162,7 +162,7 @@ func VH_C15_NewUserThenAuthenticate() {
 func VH_C15_BatchedUpdateEntriesIndependent() {
 	srv, cc := vNewServer()
 	cc.Account.Access = hotline.AccessBitmap{0xff, 0xff, 0xff, 0xff, 0xff, 0xff, 0xff, 0xff}
-	am := &vStubAM{getResult: &hotline.Account{Login: "bob", Name: "Bob", Password: "H:old"}}
+	am := &vStubAM{getResult: &hotline.Account{Login: "bob", Name: "Bob", Password: "H:zzold"}}
 	srv.AccountManager = am
 	obf := func(s string) []byte {
 		b := []byte(s)
@@ -188,7 +188,7 @@ func VH_C15_BatchedUpdateEntriesIndependent() {
 	vAssert("batch_ok_reply", len(res) >= 1 && !vIsErrReply(res[len(res)-1:]))
 	vAssert("batch_deletes_exactly_amy", len(am.deleted) == 1 && am.deleted[0] == "amy")
 	vAssert("batch_updates_exactly_bob", len(am.updated) == 1 && am.updated[0].Login == "bob" && am.updatedNew[0] == "bob" && am.updated[0].Name == "Robert")
-	vAssert("batch_password_marker_keeps_password", len(am.updated) == 1 && am.updated[0].Password == "H:old")
+	vAssert("batch_password_marker_keeps_password", len(am.updated) == 1 && vIsHashOf(am.updated[0].Password, "old"))
 	vAssert("batch_creates_nothing", len(am.created) == 0)
 }
 
@@ -196,7 +196,7 @@ func VH_C15_BatchedUpdateEntriesIndependent() {
 func VH_C15_BatchedRenameThenModify() {
 	srv, cc := vNewServer()
 	cc.Account.Access = hotline.AccessBitmap{0xff, 0xff, 0xff, 0xff, 0xff, 0xff, 0xff, 0xff}
-	am := &vStubAM{getResult: &hotline.Account{Login: "bob", Name: "Bob", Password: "H:old"}, getResult2: &hotline.Account{Login: "amy", Name: "Amy", Password: "H:amy"}}
+	am := &vStubAM{getResult: &hotline.Account{Login: "bob", Name: "Bob", Password: "H:zzold"}, getResult2: &hotline.Account{Login: "amy", Name: "Amy", Password: "H:zzamy"}}
 	srv.AccountManager = am
 	obf := func(s string) []byte {
 		b := []byte(s)
@@ -219,8 +219,8 @@ func VH_C15_BatchedRenameThenModify() {
 	vAssert("batch2_ok_reply", len(res) >= 1 && !vIsErrReply(res[len(res)-1:]))
 	vAssert("batch2_two_updates", len(am.updated) == 2 && len(am.created) == 0 && len(am.deleted) == 0)
 	if len(am.updated) == 2 {
-		vAssert("batch2_first_is_the_rename", am.updated[0].Login == "bob" && am.updatedNew[0] == "rob" && am.updated[0].Password == "H:old")
-		vAssert("batch2_second_acts_on_amy", am.updated[1].Login == "amy" && am.updatedNew[1] == "amy" && am.updated[1].Name == "Amelia" && am.updated[1].Password == "H:newpw")
+		vAssert("batch2_first_is_the_rename", am.updated[0].Login == "bob" && am.updatedNew[0] == "rob" && vIsHashOf(am.updated[0].Password, "old"))
+		vAssert("batch2_second_acts_on_amy", am.updated[1].Login == "amy" && am.updatedNew[1] == "amy" && am.updated[1].Name == "Amelia" && vIsHashOf(am.updated[1].Password, "newpw"))
 	}
 }
 
